@@ -31,6 +31,7 @@ PURE_METHODS = {
     "gap", "intersects", "getChild", "info", "debug", "warning", "error", "desc", "where", "select", "order_by", "limit", "save", "delete", "create",
     "insert_many", "init", "connect", "close", "create_table", "from_event", "total", "isinstance", "fullmatch", "finditer", "utcoffset", "date",
     "lastrowid", "rowcount", "read", "write", "parse", "exists", "isfile", "now", "fromtimestamp", "dumps", "loads", "parse_date", "is_dir", "iterdir",
+    "begin", "rollback", "atomic", "transaction", "execute_sql", "get_or_none", "first", "count", "exists", "scalar", "cache_clear", "cache_info",
 }
 
 
